@@ -320,7 +320,7 @@ Fixpoint eval (env : tenv) (e : xexpr) : res :=
       end
   | XUn UNeg a =>
       match eval env a with
-      | Val (VI z) => Val (VI (- z))
+      | Val (VI z) => if in_int64 (- z) then Val (VI (- z)) else OutOfFragment
       | Val v => wrong_operand v
       | r => r
       end
